@@ -114,3 +114,82 @@ package proto
 //@ contract (e *ColEnum) Infer(t) (err) props(C19)
 //@   requires e != nil
 //@   modifies e.rawToStr, e.strToRaw, contents(e.rawToStr), contents(e.strToRaw), e.base, e.t
+
+// ---------------------------------------------------------------------------
+// C19: the generated inference table.  A type name yields the column type of that name (literal
+// ClickHouse type names; every allocation of the table is pinned to its name, a missing one fails
+// `site-exists`), so that the inferred column reports the requested type.
+//@ contract inferGenerated(t) (r) props(C19)
+//@ callsite new:ColFloat32
+//@   assert t == "Float32" {ColFloat32-only-for-Float32}
+//@ callsite new:ColFloat64
+//@   assert t == "Float64" {ColFloat64-only-for-Float64}
+//@ callsite new:ColIPv4
+//@   assert t == "IPv4" {ColIPv4-only-for-IPv4}
+//@ callsite new:ColIPv6
+//@   assert t == "IPv6" {ColIPv6-only-for-IPv6}
+//@ callsite new:ColDate
+//@   assert t == "Date" {ColDate-only-for-Date}
+//@ callsite new:ColDate32
+//@   assert t == "Date32" {ColDate32-only-for-Date32}
+//@ callsite new:ColInt8
+//@   assert t == "Int8" {ColInt8-only-for-Int8}
+//@ callsite new:ColUInt8
+//@   assert t == "UInt8" {ColUInt8-only-for-UInt8}
+//@ callsite new:ColInt16
+//@   assert t == "Int16" {ColInt16-only-for-Int16}
+//@ callsite new:ColUInt16
+//@   assert t == "UInt16" {ColUInt16-only-for-UInt16}
+//@ callsite new:ColInt32
+//@   assert t == "Int32" {ColInt32-only-for-Int32}
+//@ callsite new:ColUInt32
+//@   assert t == "UInt32" {ColUInt32-only-for-UInt32}
+//@ callsite new:ColInt64
+//@   assert t == "Int64" {ColInt64-only-for-Int64}
+//@ callsite new:ColUInt64
+//@   assert t == "UInt64" {ColUInt64-only-for-UInt64}
+//@ callsite new:ColInt128
+//@   assert t == "Int128" {ColInt128-only-for-Int128}
+//@ callsite new:ColUInt128
+//@   assert t == "UInt128" {ColUInt128-only-for-UInt128}
+//@ callsite new:ColInt256
+//@   assert t == "Int256" {ColInt256-only-for-Int256}
+//@ callsite new:ColUInt256
+//@   assert t == "UInt256" {ColUInt256-only-for-UInt256}
+//@ -- ... and each of these columns reports exactly that type name
+//@ contract (c ColFloat32) Type() (t) props(C19)
+//@   ensures t == "Float32" {reports-Float32}
+//@ contract (c ColFloat64) Type() (t) props(C19)
+//@   ensures t == "Float64" {reports-Float64}
+//@ contract (c ColIPv4) Type() (t) props(C19)
+//@   ensures t == "IPv4" {reports-IPv4}
+//@ contract (c ColIPv6) Type() (t) props(C19)
+//@   ensures t == "IPv6" {reports-IPv6}
+//@ contract (c ColDate) Type() (t) props(C19)
+//@   ensures t == "Date" {reports-Date}
+//@ contract (c ColDate32) Type() (t) props(C19)
+//@   ensures t == "Date32" {reports-Date32}
+//@ contract (c ColInt8) Type() (t) props(C19)
+//@   ensures t == "Int8" {reports-Int8}
+//@ contract (c ColUInt8) Type() (t) props(C19)
+//@   ensures t == "UInt8" {reports-UInt8}
+//@ contract (c ColInt16) Type() (t) props(C19)
+//@   ensures t == "Int16" {reports-Int16}
+//@ contract (c ColUInt16) Type() (t) props(C19)
+//@   ensures t == "UInt16" {reports-UInt16}
+//@ contract (c ColInt32) Type() (t) props(C19)
+//@   ensures t == "Int32" {reports-Int32}
+//@ contract (c ColUInt32) Type() (t) props(C19)
+//@   ensures t == "UInt32" {reports-UInt32}
+//@ contract (c ColInt64) Type() (t) props(C19)
+//@   ensures t == "Int64" {reports-Int64}
+//@ contract (c ColUInt64) Type() (t) props(C19)
+//@   ensures t == "UInt64" {reports-UInt64}
+//@ contract (c ColInt128) Type() (t) props(C19)
+//@   ensures t == "Int128" {reports-Int128}
+//@ contract (c ColUInt128) Type() (t) props(C19)
+//@   ensures t == "UInt128" {reports-UInt128}
+//@ contract (c ColInt256) Type() (t) props(C19)
+//@   ensures t == "Int256" {reports-Int256}
+//@ contract (c ColUInt256) Type() (t) props(C19)
+//@   ensures t == "UInt256" {reports-UInt256}
